@@ -172,6 +172,37 @@ def check_desc(st: Stats, desc: tuple, do_mutants: bool = True) -> None:
         if not o1.is_structurally_equivalent(o1):
             st.violate("C03|operation|attached-reflexive|false-negative", "an attached operation is not equivalent to itself", wit)
             break
+    # sub-pieces: every pair of ops and every pair of blocks of ONE forest, and each op / block against its twin in
+    # the independently rebuilt forest.  References that leave the compared piece (operands defined elsewhere,
+    # successor blocks outside the piece) are free: equivalent only if they are the IDENTICAL object (canon keys
+    # them by identity).
+    wops1, wops2 = [o for o in w1.walk() if o is not w1], [o for o in w2.walk() if o is not w2]
+    pairs = [(a, b, "op-pair") for i, a in enumerate(wops1) for b in wops1[i:]] + [(a, b, "op-vs-twin") for a, b in zip(wops1, wops2)]
+    wb1 = [b for r in [w1.regions[0]] for b in r.blocks]
+    wb2 = [b for r in [w2.regions[0]] for b in r.blocks]
+    pairs += [(a, b, "block-pair") for i, a in enumerate(wb1) for b in wb1[i:]] + [(a, b, "block-vs-twin") for a, b in zip(wb1, wb2)]
+    def uses_own_definition(piece) -> bool:
+        inner = {id(v) for v in (_defined_in(piece) if not hasattr(piece, "args") else
+                                 list(piece.args) + [v for o in piece.ops for v in _defined_in(o)])}
+        ops_ = [piece] if not hasattr(piece, "args") else list(piece.walk())
+        if not hasattr(piece, "args"):
+            ops_ = list(piece.walk())
+        return any(id(v) in inner for o in ops_ for v in o._operands)
+
+    for a, b, kind in pairs:
+        ref = canon([a]) == canon([b])
+        st.evaluations += 2
+        try:
+            g1, g2 = a.is_structurally_equivalent(b), b.is_structurally_equivalent(a)
+        except Exception as e:  # noqa: BLE001
+            st.violate(f"C03|{kind}|raises|{type(e).__name__}", f"is_structurally_equivalent raised {type(e).__name__} on a sub-piece", wit)
+            continue
+        if g1 != g2:
+            st.violate(f"C03|{kind}|asymmetric", f"sub-piece comparison ({kind}) is not symmetric: {g1} one way, {g2} the other", wit)
+        elif g1 != ref:
+            st.violate(f"C03|{kind}|{'false-negative' if ref else 'false-positive'}",
+                       f"sub-piece comparison ({kind}) says {g1}, canonical forms {'equal' if ref else 'differ'} "
+                       "(free references must be the identical object)", wit)
     # CSE OperationInfo on the ops of x: twins at same position vs canon of the single op (operands by identity)
     ops = x.ops
     for i, a in enumerate(ops):
@@ -212,6 +243,34 @@ def check_desc(st: Stats, desc: tuple, do_mutants: bool = True) -> None:
         st.executions += 1
         st.outcomes[("iso:" if expect else "diff:") + label.split(":")[0]] += 1
         eq_all(st, x, y, expect, label.replace("nested:", ""), {"desc": desc, "mutant": d2, "mutation": label})
+
+
+def check_attr_order(st: Stats) -> None:
+    """ops whose attribute / property dictionaries hold the same entries in a different insertion order are equivalent,
+    for is_structurally_equivalent and for CSE's OperationInfo (equality and hash)"""
+    from xdsl.dialects.builtin import StringAttr, i32
+    from xdsl.dialects.test import TestOp
+    from xdsl.transforms.common_subexpression_elimination import OperationInfo
+
+    entries = [("a", StringAttr("1")), ("b", StringAttr("2")), ("c", StringAttr("3"))]
+    import itertools as it
+
+    for n in (2, 3):
+        for perm1 in it.permutations(entries[:n]):
+            for perm2 in it.permutations(entries[:n]):
+                for where in ("attributes", "properties"):
+                    keys = {"a": "prop1", "b": "prop2", "c": "prop3"} if where == "properties" else {"a": "a", "b": "b", "c": "c"}
+                    o1 = TestOp(result_types=[i32], **{where: {keys[k]: v for k, v in perm1}})
+                    o2 = TestOp(result_types=[i32], **{where: {keys[k]: v for k, v in perm2}})
+                    st.executions += 1
+                    wit = {"where": where, "order1": [k for k, _ in perm1], "order2": [k for k, _ in perm2]}
+                    if not o1.is_structurally_equivalent(o2):
+                        st.violate(f"C03|operation|{where}-order|false-negative", f"ops with the same {where} in a different order are reported non-equivalent", wit)
+                    i1, i2 = OperationInfo(o1), OperationInfo(o2)
+                    if not (i1 == i2) or not (i2 == i1):
+                        st.violate(f"C03|OperationInfo|{where}-order|false-negative", f"OperationInfo differs for the same {where} in a different order", wit)
+                    elif hash(i1) != hash(i2):
+                        st.violate(f"C03|OperationInfo|{where}-order|hash", "equal OperationInfo with different hashes", wit)
 
 
 def _defined_in(op) -> list:
@@ -261,6 +320,7 @@ def run(ctx):
     else:
         spaces = [dict(max_blocks=2, max_ops=3, max_args=1, depth=1), dict(max_blocks=3, max_ops=2, max_args=0, depth=0)]
         cross = dict(max_blocks=2, max_ops=2, max_args=1, depth=1)
+    check_attr_order(ctx.stats)
     n = 64
     tasks = [(sp, i, n, ctx.seed) for sp in spaces for i in range(n)]
     for _, st in pmap(_shard, tasks):
